@@ -69,6 +69,14 @@ func cast(from reflect.Value, to reflect.Value) (interface{}, error) {
 			return toFloat32(from.String())
 		case reflect.Float64:
 			return toFloat(from.String())
+		case reflect.Uint16:
+			v, err := strconv.ParseUint(from.String(), 10, 16)
+			return uint16(v), err
+		case reflect.Uint32:
+			v, err := strconv.ParseUint(from.String(), 10, 32)
+			return uint32(v), err
+		case reflect.Uint64:
+			return strconv.ParseUint(from.String(), 10, 64)
 		}
 	case reflect.Int:
 		if to.Kind() == reflect.String {
